@@ -1,3 +1,4 @@
+#![allow(unreachable_pub, dead_code, missing_docs, unused_imports, unused_variables, unused_mut, static_mut_refs, clippy::all)]
 // Kani harnesses for iroh/src/socket/mapped_addrs.rs (C18 classification + AddrMap).
 use super::*;
 include!("/verif/kani/common.rs");
